@@ -11,6 +11,7 @@ import (
 	"github.com/jamf/regatta/regattapb"
 	"github.com/jamf/regatta/storage/table"
 	"github.com/jamf/regatta/storage/table/fsm"
+	"github.com/lni/dragonboat/v4"
 	"github.com/lni/dragonboat/v4/client"
 	sm "github.com/lni/dragonboat/v4/statemachine"
 )
@@ -32,6 +33,7 @@ type simHost struct {
 	// applies both in ONE Update call on the leader (what dragonboat does with proposals that arrive together)
 	mu         sync.Mutex
 	holdNext   bool
+	leaderless bool
 	held       []heldProposal
 	registered chan struct{}
 }
@@ -141,6 +143,11 @@ func (h *simHost) SyncPropose(_ context.Context, _ *client.Session, cmd []byte) 
 }
 
 func (h *simHost) SyncRead(_ context.Context, _ uint64, req interface{}) (interface{}, error) {
+	if h.leaderless {
+		// no known leader (partitioned replica, election): dragonboat drops the read index request
+		h.calls = append(h.calls, "sync-dropped")
+		return nil, dragonboat.ErrShardNotReady
+	}
 	h.calls = append(h.calls, "sync")
 	i := h.r.Intn(len(h.reps))
 	if _, err := h.catchUp(i, len(h.log)); err != nil { // ReadIndex: applied >= commit index at the start of the read
@@ -203,6 +210,37 @@ func runC10(args []string) error {
 		nops := 6 + r.Intn(15)
 		for o := 0; o < nops; o++ {
 			in := func() map[string]any { return map[string]any{"script": strings.Join(descr, " ; ")} }
+			if r.Intn(8) == 0 && len(h.log) > 0 {
+				// a linearizable read on a replica that has lost its leader: an error (retry) is fine, an answer has to
+				// reflect every acknowledged write
+				rq := g.rng()
+				h.leaderless = true
+				resp, rerr := at.Range(ctx, &regattapb.RangeRequest{Table: []byte("t"), Key: rq.Key, RangeEnd: rq.End, Limit: rq.Limit, KeysOnly: rq.KeysOnly, CountOnly: rq.CountOnly, Linearizable: true})
+				var tresp *regattapb.TxnResponse
+				var terr error
+				if rerr != nil {
+					tresp, terr = at.Txn(ctx, &regattapb.TxnRequest{Table: []byte("t"), Success: []*regattapb.RequestOp{{Request: &regattapb.RequestOp_RequestRange{RequestRange: rq.pb()}}}})
+				}
+				h.leaderless = false
+				ho.Inc("read-linearizable-without-leader")
+				ref, err := h.referenceAt(len(h.log))
+				if err != nil {
+					return err
+				}
+				want, err := ref.read(rq)
+				ref.close()
+				if err != nil {
+					return err
+				}
+				descr = append(descr, fmt.Sprintf("leaderless %s lin=true", rq))
+				if rerr == nil && oL(oKVs(resp.Kvs), oBool(resp.More), oN(resp.Count)) != oRange(want) {
+					sum.violate(c, "a linearizable read answered while the replica had no leader misses acknowledged writes", in(), fmt.Sprintf("served from prefix %d of %d", h.lastRead, len(h.log)))
+				}
+				if rerr != nil && terr == nil && len(tresp.Responses) == 1 && oRange(tresp.Responses[0].GetResponseRange()) != oRange(want) {
+					sum.violate(c, "a read-only transaction answered while the replica had no leader misses acknowledged writes", in(), fmt.Sprintf("served from prefix %d of %d", h.lastRead, len(h.log)))
+				}
+				continue
+			}
 			if r.Intn(5) == 0 {
 				// two clients write at the same time: both proposals are applied by ONE Update call on the leader; the
 				// responses must still be those of the two writes taken one after the other in revision order
